@@ -62,7 +62,10 @@ def run(ctx):
         else:
             kinds.append("other:" + t[:40])
     exp = ["startDocument", "loop:startPrefixMapping", "tokens", "loop:endPrefixMapping", "endDocument"]
-    r.check("R19.1", kinds == exp, "bracket-order", f.where, "to_sax statement order is %s; expected %s" % (kinds, exp), detail={"order": kinds})
+    r.idiom("R19.1", kinds == exp, "bracket-order", f.where, "to_sax statement order is %s; expected %s" % (kinds, exp),
+            wrong=[(sorted(kinds) == sorted(exp) and kinds != exp, None),
+                   (all(not k.startswith("other") for k in kinds) and set(kinds) < set(exp), "to_sax no longer emits %s" % sorted(set(exp) - set(kinds)))],
+            detail={"order": kinds})
     if tok_loop is None:
         raise AnalysisError("to_sax: token loop not found")
     inner = [norm(c.func) for c in ast.walk(tok_loop) if isinstance(c, ast.Call)]
@@ -97,7 +100,7 @@ def run(ctx):
     r.check("R19.2", names == {("(%s['namespace'], %s['name'])" % (tok, tok), "%s['name']" % tok)}, "same-name-on-start-and-end", f.where,
             "start and end element events use different name expressions: %s" % sorted(names))
     attrs = [c for c in ast.walk(tok_loop) if isinstance(c, ast.Call) and norm(c.func) == "AttributesNSImpl"]
-    r.check("R19.2", len(attrs) == 1 and [norm(a) for a in attrs[0].args] == ["%s['data']" % tok, "unadjustForeignAttributes"],
+    r.idiom("R19.2", len(attrs) == 1 and [norm(a) for a in attrs[0].args] == ["%s['data']" % tok, "unadjustForeignAttributes"],
             "attributes", f.where, "attributes are not passed as AttributesNSImpl(token['data'], unadjustForeignAttributes)")
     # R19.3
     adj = ce.const("constants.py", "adjustForeignAttributes")
@@ -115,7 +118,7 @@ def run(ctx):
     loops = [s for s in mod.tree.body if isinstance(s, ast.For)]
     ok = len(loops) == 1 and norm(loops[0].iter) == "adjustForeignAttributes.values()" and \
         " ".join(norm(loops[0]).split()).endswith("if prefix is not None: prefix_mapping[prefix] = namespace")
-    r.check("R19.3", ok, "prefix-mapping-built", REL, "prefix_mapping is no longer built from adjustForeignAttributes (prefix -> namespace)")
+    r.idiom("R19.3", ok, "prefix-mapping-built", REL, "prefix_mapping is no longer built from adjustForeignAttributes (prefix -> namespace)")
 
 
 def thorough(ctx):
